@@ -507,6 +507,7 @@ IDIOMS = [
     ("N7.range_to_incl_next_back", "$m.range(..=$_k).next_back()", "btree_pred_incl(&$m, $_k)"),
     ("N7.range_from_next", "$m.range($_k..).next()", "btree_succ_ge(&$m, $_k)"),
     ("N7.last_key_value", "$m.last_key_value()", "btree_last(&$m)"),
+    ("N7.first_key_value", "$m.first_key_value()", "btree_first(&$m)"),
     ("N7.u64_to_le", "($_x as u64).to_le_bytes()", "u64_to_le_bytes($_x as u64)"),
     ("N7.u32_to_le", "($_x as u32).to_le_bytes()", "u32_to_le_bytes($_x as u32)"),
     ("N7.u64_from_le", "u64::from_le_bytes($_e.try_into().unwrap())", "u64_from_le_slice(&$_e)"),
